@@ -26,6 +26,8 @@ class ConditionalExpressionTransformer(converter.Base):
   """Converts conditional expressions to functional form."""
 
   def visit_IfExp(self, node):
+    # Conditional expressions nested in the test or in either branch.
+    node = self.generic_visit(node)
     template = '''
         ag__.if_exp(
             test,
